@@ -186,7 +186,14 @@ def replay(mod, ctx, path):
     print(r.transcript)
     for m in r.mism: print(m)
     if r.crashed: print("CRASHED rc=%s\n%s" % (r.rc, r.stderr[-2000:]))
-    viols = mod.judge(ctx, [r]) if hasattr(mod, "judge") else []
+    from . import ksuites
+    if "nop expect-login" in ops or "nop expect-label" in ops:
+        # suites judged by a fresh process's answers only (two processes: what the long-running process itself sees is not part of the suite)
+        viols = [Violation(s, t, ops) for s, t in ksuites.expect_login_direct(r)]
+    else:
+        viols = mod.judge(ctx, [r]) if hasattr(mod, "judge") else []
+        if "nop samevalues" in ops: viols += [Violation(s, t, ops) for s, t in ksuites.samevalues_direct(r)]
+        if "nop expect-no-output" in ops: viols += [Violation(s, t, ops) for s, t in ksuites.no_output_direct(r)]
     for v in viols: print("JUDGEMENT: violates %s: %s" % (ctx.pid, v.text))
     if not viols: print("JUDGEMENT: no violation of %s on this replay" % ctx.pid)
     return 1 if viols else 0
@@ -213,7 +220,16 @@ def run_property(mod, ctx, t0):
     kres = {"suites": 0, "evaluations": 0, "hist": {}, "samples": [], "abandoned": 0, "notes": []}
     kviol = []
     if not bad_build and stamp.get("lean", {}).get("driver"):
-        kviol = mod.run_k(ctx, kres)
+        try:
+            kviol = mod.run_k(ctx, kres)
+        except Exception as e:
+            # the correspondence machinery itself failed (an answer of the library it could not digest, a generator error): the property is no longer SHOWN to hold on this
+            # tree; reported as a broken correspondence obligation (never silently as a bare non-zero exit)
+            import traceback
+            tb = traceback.format_exc()
+            log(tb)
+            kviol = [Violation("correspondence-error", "the correspondence check could not be completed: %s: %s" % (type(e).__name__, str(e)[:300]),
+                               json.dumps({"property": pid, "broken_obligations": [{"name": "correspondence suites of %s" % pid, "detail": tb[-3000:]}]}, indent=1), False)]
     elif not bad_build:
         p_broken.append(("model driver", "shm-driver did not build; correspondence cannot run"))
     violations += kviol
